@@ -65,7 +65,15 @@ def _check(ctx: Ctx) -> None:
             continue
         blk = _block_of(w.node)
         nz = Normaliser()
-        nz.run_block([s for s in blk if s.lineno < w.node.lineno])
+        # definitions in force: the simple assignments of every enclosing block that precede the write (outermost first)
+        pre_ = [s for s in blk if s.lineno < w.node.lineno]
+        for a in ancestors(w.node):
+            if isinstance(a, ast.FunctionDef):
+                break
+            if isinstance(a, (ast.For, ast.While, ast.If)):
+                pre_ = [s for s in _block_of(a) if isinstance(s, (ast.Assign, ast.AugAssign)) and s.lineno < a.lineno
+                        and not any(isinstance(x, ast.Call) for x in ast.walk(s.value))] + pre_        # (arithmetic only: lists and look-ups keep their names)
+        nz.run_block(pre_)
         t = w.node.target if isinstance(w.node, ast.AugAssign) else w.node.targets[0]
         pair = t.value.value if isinstance(t.value, ast.Subscript) else None
         if pair is None:
